@@ -1,42 +1,129 @@
-"""C45 — LogFormatter.format never fails and indents every newline."""
+"""C45 — LogFormatter.format never fails and indents every newline.
+
+A case is either a call of LogFormatter.format on a record built from the case description, or a
+direct call of tornado.log._safe_unicode.  The stdlib parts (record.getMessage(), repr() of the
+exception / of record.__dict__, formatTime, formatException) are oracles evaluated on a copy of the
+very record; everything LogFormatter does with them is computed by the Coq model.
+Cases with "opt": true run under `python -O` (the assert in format() is compiled away, the bytes branch
+of _safe_unicode becomes reachable) in ONE batched subprocess per check run."""
 import copy
+import json
 import logging
+import os
+import re
+import subprocess
 import sys
-import time
 
 from harness import gallina as G
 
 ID = "C45"
-COQ_DIRS = ["C45"]
+COQ_DIRS = ["C45", "Gen"]
 PROPERTY_FILE = "C45/Property.v"
 RUN_IMPORTS = "From TV Require Import C45.Model C45.Run."
 RUN_FN = "run_case"
 CHECK_FN = "check_case"
-INPUT_TYPE = "(list N * list N * list N * list N)"
+INPUT_TYPE = "case_input"
 TRUSTED_BASE = [
-    "the `logging` package (LogRecord.getMessage, Formatter.formatTime/formatException) is an oracle: the harness computes the message text, "
-    "the interpolated prefix/suffix and the exception text independently with the stdlib and hands them to the model; "
-    "`fmt % record.__dict__` is modelled as concatenation around %(message)s",
+    "the `logging` package is an oracle for: the outcome of LogRecord.getMessage() (returned value, or exception class + repr(e)), "
+    "repr(record.__dict__), Formatter.formatTime and Formatter.formatException — evaluated by the harness on a copy of the record; "
+    "CPython's `fmt % mapping`, bytes.decode('utf-8'), repr(bytes) and the built-in exception hierarchy are modelled in Gallina and tied by the correspondence only",
+    "translators/c45_src.py (statement-shape matcher + template instantiation; a wrong template is caught only by the correspondence)",
+    "coq/C14/Utf8.v + Utf8Proofs.v (strict UTF-8 codec and its round-trip theorem) are imported from property C14",
 ]
-ASSUMPTIONS = ["the format string contains %(message)s exactly once and record fields other than the message contain no newline (they are set by the logging call site, not by message content)"]
-RULE = ("records built from a grammar of messages (str/bytes, embedded \\n, \\r\\n, unicode separators, trailing whitespace), format arguments "
-        "(matching, mismatched, non-UTF-8 bytes, objects whose __str__ raises), exception info with multi-line text, preset exc_text, and 4 format strings; "
-        "distinct by input JSON; non-trivial = output contains a newline or the message could not be formatted")
+ASSUMPTIONS = [
+    "never-raises is claimed for records whose getMessage() returns or raises a subclass of Exception, whose objects have a working __repr__, whose exc_info is accepted by "
+    "formatException, and for a format string that fits the record (keys present, %d on ints): `in_domain` in coq/C45/Run.v; outside it the model predicts the exception class and the implementation must agree",
+    "the curses branch of LogFormatter.__init__ (colour strings from terminfo) is not modelled; the ANSI branch and colour-off are",
+    "only \\n counts as a newline (the property's wording): \\r, U+2028 etc. pass through unchanged",
+]
+RULE = ("records from a grammar: str/bytes/int/object messages with %-specifiers (matching, too few/many args, wrong type, bad specifier, %c overflow, mapping argument with a missing key), "
+        "arguments whose __str__ raises each of 25 exception classes (incl. BaseException-only ones) or whose __repr__ also raises, getMessage overrides returning bytes (valid / invalid UTF-8) / None / int, "
+        "with and without python -O; 18+ format strings (widths, precisions, message 0/1/2 times, newline in the format, missing key, %d on a str, incomplete); colour off / unsupported / ANSI table (default and custom, "
+        "5 standard + custom levels); exc_info with multi-line text, preset/cached/empty exc_text, exc_info rejected by formatException; direct _safe_unicode calls on boundary byte strings; "
+        "distinct by input JSON; non-trivial = output contains a newline, the fallback was taken, an exception escaped, or a non-ASCII/bytes conversion happened")
 
+
+
+def pre_build():
+    """regenerate coq/Gen/C45_src.v from the checkout under test (fails closed on any unexpected statement shape)"""
+    import importlib
+    root = os.path.dirname(os.path.dirname(os.path.dirname(os.path.abspath(__file__))))
+    sys.path.insert(0, os.path.join(root, "translators"))
+    import c45_src
+    importlib.reload(c45_src)
+    c45_src.emit(os.environ.get("VERIF_REPO", "/repo"), os.path.join(root, "coq", "Gen", "C45_src.v"))
+
+
+DEFAULT = None   # LogFormatter.DEFAULT_FORMAT
 FMTS = [
-    ("[%(levelname)1.1s %(asctime)s %(module)s:%(lineno)d]%(end_color)s ", ""),      # the default shape
-    ("%(color)s%(levelname)s|", "|%(name)s"),
-    ("", ""),
-    ("%(name)s: ", "   "),
+    DEFAULT,
+    "%(message)s",
+    "%(levelname)s|%(message)s|%(name)s",
+    "%(name)s: %(message)s   ",
+    "%(color)s%(levelname)-8s%(end_color)s %(message)s",
+    "%(lineno)5d %(message).10s",
+    "%(levelno)d:%(message)s:%(message)s",
+    "no message %(name)s",
+    "100%% %(message)s",
+    "%(asctime)s\n%(message)s",
+    "%(color)s[%(levelname)1.1s %(module)s:%(lineno)s]%(end_color)s %(message)s\t",
+    "%(name).3s %(name)9s|%(name)-9s|%(message)s",
+    "%(color)s%(message)s%(end_color)s",
 ]
+BAD_FMTS = ["%(nokey)s %(message)s", "%(levelname)d %(message)s", "%(message)s %", "%(message)s %(name", "%(message)d"]
+
+EXC_NAMES = ["BaseException", "Exception", "TypeError", "ValueError", "UnicodeError", "UnicodeDecodeError", "UnicodeEncodeError",
+             "LookupError", "KeyError", "IndexError", "ArithmeticError", "OverflowError", "ZeroDivisionError", "AssertionError",
+             "AttributeError", "RuntimeError", "RecursionError", "NotImplementedError", "OSError", "MemoryError", "StopIteration",
+             "KeyboardInterrupt", "SystemExit", "GeneratorExit", "UserException", "UserBase"]
 
 
-class BadStr:
+class UserException(Exception):
+    pass
+
+
+class UserBase(BaseException):
+    pass
+
+
+class BadReprError(Exception):
+    def __repr__(self):
+        raise LookupError("no repr for the exception either")
+
+
+def make_exc(name, text="boom\nline"):
+    if name == "UserException":
+        return UserException(text)
+    if name == "UserBase":
+        return UserBase(text)
+    if name == "BadReprError":
+        return BadReprError(text)
+    import builtins
+    cls = getattr(builtins, name)
+    if name == "UnicodeDecodeError":
+        return cls("utf-8", b"\xff\n", 0, 1, "bad\nbyte")
+    if name == "UnicodeEncodeError":
+        return cls("ascii", "\xe9\n", 0, 1, "bad\nchar")
+    return cls(text)
+
+
+def cls_name(e):
+    n = type(e).__name__
+    if n in EXC_NAMES and type(e).__module__ in ("builtins", __name__):
+        return n
+    return "UserException" if isinstance(e, Exception) else "UserBase"
+
+
+class Raiser:
+    """an argument / message object whose __str__ raises; repr works (and may contain a newline)"""
+    def __init__(self, name):
+        self.name = name
+
     def __str__(self):
-        raise RuntimeError("no str\nfor you")
+        raise make_exc(self.name)
 
     def __repr__(self):
-        return "<BadStr>"
+        return "<R %s>" % self.name
 
 
 class NLRepr:
@@ -44,34 +131,84 @@ class NLRepr:
         return "<nl\nrepr>"
 
 
+class BadRepr:
+    """neither str() nor repr() works"""
+    def __str__(self):
+        raise RuntimeError("no str")
+
+    def __repr__(self):
+        raise ZeroDivisionError("no repr")
+
+
 def decode_arg(a):
-    k, v = a
+    k = a[0]
     if k == "s":
-        return v
+        return a[1]
     if k == "b":
-        return v.encode("latin-1")
+        return a[1].encode("latin-1")
     if k == "i":
-        return v
-    if k == "bad":
-        return BadStr()
+        return a[1]
+    if k == "raise":
+        return Raiser(a[1])
     if k == "nlrepr":
         return NLRepr()
+    if k == "badrepr":
+        return BadRepr()
+    if k == "map":
+        return dict(a[1])
+    if k == "none":
+        return None
     raise ValueError(k)
 
 
+KEEP = ("name", "msg", "args", "levelname", "levelno", "module", "lineno", "exc_info", "exc_text", "created")
+
+
 def build(case):
-    from tornado.log import LogFormatter
-    pre, suf = FMTS[case["fmt"]]
-    f = LogFormatter(fmt=pre + "%(message)s" + suf, color=False)
+    import tornado.log as tl
+    kw = {}
+    if case.get("fmt") is not None:
+        kw["fmt"] = case["fmt"]
+    color = case.get("color")
+    if color is None:
+        f = tl.LogFormatter(color=False, **kw)
+    elif color == "nosupport":
+        f = tl.LogFormatter(color=True, **kw)          # stderr of the check is not a colour terminal
+    else:
+        saved = tl.curses, tl._stderr_supports_color
+        tl.curses, tl._stderr_supports_color = None, (lambda: True)    # the colorama branch of __init__
+        try:
+            if color == "default":
+                f = tl.LogFormatter(color=True, **kw)
+            else:
+                f = tl.LogFormatter(color=True, colors={int(k): int(v) for k, v in color}, **kw)
+        finally:
+            tl.curses, tl._stderr_supports_color = saved
     msg = decode_arg(case["msg"])
-    args = tuple(decode_arg(a) for a in case["args"])
+    args = tuple(decode_arg(a) for a in case.get("args", []))     # LogRecord unwraps a single non-empty mapping itself
     exc_info = None
     if case.get("exc") is not None:
-        try:
-            raise ValueError(case["exc"])
-        except ValueError:
-            exc_info = sys.exc_info()
-    rec = logging.LogRecord("tornado.test", logging.ERROR, "/x/mod.py", 42, msg, args, exc_info)
+        if case.get("tb"):
+            try:
+                raise ValueError(case["exc"])
+            except ValueError:
+                exc_info = sys.exc_info()
+        else:
+            exc_info = (ValueError, ValueError(case["exc"]), None)
+    if case.get("exc_info_bad"):
+        exc_info = True
+    cls = logging.LogRecord
+    gm = case.get("gm")
+    if gm is not None:
+        if gm[0] == "raise":
+            def getMessage(self, _n=gm[1]):
+                raise make_exc(_n)
+        else:
+            def getMessage(self, _v=decode_arg(gm)):
+                return _v
+        cls = type("Rec", (logging.LogRecord,), {"getMessage": getMessage})
+    level = case.get("level", logging.ERROR)
+    rec = cls("tornado.test", level, "/x/mod.py", 42, msg, args, exc_info)
     rec.created = 1300000000.25
     rec.msecs = 250.0
     rec.relativeCreated = 1.0
@@ -79,168 +216,480 @@ def build(case):
     rec.process = 1
     if case.get("exc_text") is not None:
         rec.exc_text = case["exc_text"]
-    return f, rec, pre, suf
-
-
-_ORACLE = {}
+    if not case.get("full"):
+        for k in list(rec.__dict__):
+            if k not in KEEP:
+                del rec.__dict__[k]
+    return f, rec
 
 
 def _noaddr(t):
-    """object addresses in reprs differ between records: canonicalise them on both sides"""
-    import re
-    return re.sub(r"0x[0-9a-f]{6,}", "0xADDR", t)
+    """object addresses / harness line numbers in reprs and tracebacks: canonicalise on both sides"""
+    t = re.sub(r"0x[0-9a-f]{6,}", "0xADDR", t)
+    return re.sub(r'File "[^"\n]*", line \d+', 'File "F", line 0', t)
 
 
 def _key(case):
-    import json
-    return json.dumps(case, sort_keys=True, default=list)
+    return json.dumps(case, sort_keys=True)
 
 
-def oracle(case, built=None):
-    """(prefix, message, suffix, exc_text) computed with the stdlib only, on a copy of the
-    very record handed to the formatter (reprs of tracebacks contain addresses)."""
-    f, rec, pre, suf = built or build(case)
+# ---------------------------------------------------------------- Gallina rendering
+
+def gtext(s):
+    """text -> Gallina `text`; runs of printable ASCII are written as (t_of_string "...") — much cheaper for coqc
+    to read than a list of numerals"""
+    if isinstance(s, str):
+        s = _noaddr(s)
+    vals = [ord(c) for c in s] if isinstance(s, str) else list(s)
+    # split into maximal runs of printable ASCII (kept as string literals when >= 6 long) and the rest
+    runs = []
+    for v in vals:
+        p = 32 <= v < 127
+        if runs and runs[-1][0] == p:
+            runs[-1][1].append(v)
+        else:
+            runs.append([p, [v]])
+    parts, nums = [], []
+    for p, vs in runs:
+        if p and len(vs) >= 6:
+            if nums:
+                parts.append("[" + ";".join(map(str, nums)) + "]%N")
+                nums = []
+            parts.append('t_of_string "%s"' % "".join(map(chr, vs)).replace('"', '""'))
+        else:
+            nums += vs
+    if nums:
+        parts.append("[" + ";".join(map(str, nums)) + "]%N")
+    if not parts:
+        return "(@nil N)"
+    return "(" + " ++ ".join(parts) + ")"
+
+
+def g_repr_res(fn):
+    try:
+        return "(ReprOk %s)" % gtext(fn())
+    except BaseException as e:
+        return "(ReprRaises E%s)" % cls_name(e)
+
+
+def g_pyval(v):
+    if v is None:
+        return "PNone"
+    if isinstance(v, str):
+        return "(PStr %s)" % gtext(v)
+    if isinstance(v, bytes):
+        return "(PBytes %s)" % G.gbytes(v)
+    return "(POther %s)" % gtext(repr(type(v)))
+
+
+def g_fields(rec, fmt):
+    keys = ["name", "levelname", "module", "lineno"] + re.findall(r"%\(([^()]*)\)", fmt)
+    out, seen = [], set()
+    for k in keys:
+        if k in seen or k in ("message", "asctime", "color", "end_color", "levelno") or k not in rec.__dict__:
+            continue
+        seen.add(k)
+        v = rec.__dict__[k]
+        if isinstance(v, str):
+            out.append("(%s, VStr %s)" % (gtext(k), gtext(v)))
+        elif isinstance(v, int) and not isinstance(v, bool):
+            out.append("(%s, VInt %s)" % (gtext(k), G.gz(v)))
+        # other types (float, None, tuple) are outside the modelled fragment: left out, so a format string
+        # that uses them makes the model answer KeyError and the case a mismatch (fails closed)
+    return G.glist(out, "(text * fval)")
+
+
+def oracle_input(case, f, rec):
+    """Gallina term of type log_input for this record (oracles evaluated on a copy)."""
     r2 = copy.copy(rec)
+    r2.__dict__ = dict(rec.__dict__)
+    fallback = True
     try:
         m = r2.getMessage()
-        assert isinstance(m, str)
-        message = m
-    except Exception as e:
-        message = f"Bad message ({e!r}): {r2.__dict__!r}"
-    d = dict(r2.__dict__)
-    d["asctime"] = time.strftime("%y%m%d %H:%M:%S", time.localtime(rec.created))
-    d["color"] = d["end_color"] = ""
-    prefix, suffix = pre % d, suf % d
-    exc_text = rec.exc_text or ""
-    if rec.exc_info and not rec.exc_text:
-        exc_text = logging.Formatter().formatException(rec.exc_info)
-    return prefix, message, suffix, exc_text
+        getmsg = "(GMReturn %s)" % g_pyval(m)
+        fallback = not isinstance(m, str)
+    except BaseException as e:
+        getmsg = "(GMRaise E%s %s)" % (cls_name(e), g_repr_res(lambda: repr(e)))
+    # repr(record.__dict__) is only evaluated by the f-string in the except branch: supplied when the
+    # message is not a str (keeps the literals small); a wrong guess here is a mismatch, never a pass
+    dict_repr = g_repr_res(lambda: repr(r2.__dict__)) if fallback else "(ReprOk (@nil N))"
+    asctime = logging.Formatter(datefmt=f.datefmt).formatTime(r2, f.datefmt)
+    color = case.get("color")
+    if color is None or color == "nosupport":
+        gcolor = "ColorOff"
+    elif color == "default":
+        gcolor = "(ColorAnsi DEFAULT_COLORS)"
+    else:
+        gcolor = "(ColorAnsi %s)" % G.glist(["(%s, %s)" % (G.gz(int(k)), G.gz(int(v))) for k, v in color], "(Z * Z)")
+    et = rec.exc_text
+    assert et is None or isinstance(et, str)
+    g_et = "None" if et is None else "(Some %s)" % gtext(et)
+    if rec.exc_info and not et:
+        try:
+            g_fe = "(Returned %s)" % gtext(logging.Formatter().formatException(rec.exc_info))
+        except Exception as e:
+            g_fe = "(@Raised text E%s ReprUnsup)" % cls_name(e)
+    else:
+        g_fe = "(@Unsupported text)"          # not called by format() on this record
+    return "(CFormat (Build_log_input %s %s %s %s %s %s %s %s %s %s %s))" % (
+        gtext(f._fmt), gcolor, G.gbool(bool(case.get("opt"))), getmsg, dict_repr, gtext(asctime),
+        G.gz(rec.levelno), g_fields(rec, f._fmt), G.gbool(bool(rec.exc_info)), g_et, g_fe)
+
+
+# ---------------------------------------------------------------- running the implementation
+
+def eval_case(case):
+    """-> (observable, Gallina input text); must run in a process whose -O state matches case['opt']"""
+    if case.get("k") == "su":
+        from tornado.log import _safe_unicode
+        v = decode_arg(case["v"])
+        try:
+            r = _safe_unicode(v)
+            o = None if r is None else [G.Tag("str"), r] if isinstance(r, str) else [G.Tag("NotStr"), type(r).__name__]
+        except Exception as e:
+            o = [G.Tag("Raised"), G.Tag(cls_name(e))]
+        return o, "(CSafeUnicode %s)" % g_pyval(v)
+    assert bool(case.get("opt")) == bool(sys.flags.optimize), "case must run under python -O"
+    f, rec = build(case)
+    gi = oracle_input(case, f, rec)
+    try:
+        out = f.format(rec)
+    except BaseException as e:
+        return [G.Tag("Raised"), G.Tag(cls_name(e))], gi
+    if not isinstance(out, str):
+        return [G.Tag("NotStr"), type(out).__name__], gi
+    et = rec.exc_text
+    et = None if et is None else _noaddr(et) if isinstance(et, str) else [G.Tag("NotStr"), type(et).__name__]
+    return [_noaddr(out), et], gi
+
+
+def _enc(o):
+    return G.jsonable(o)
+
+
+def _dec(o):
+    if isinstance(o, dict) and "tag" in o:
+        return G.Tag(o["tag"])
+    if isinstance(o, list):
+        return [_dec(x) for x in o]
+    return o
+
+
+_CACHE = {}        # key -> (obs, gallina input)
+_PENDING = []      # generated cases (for the one batched -O subprocess)
+
+
+def _run_opt_batch(cases):
+    cases = [c for c in cases if c.get("opt") and _key(c) not in _CACHE]
+    if not cases:
+        return
+    p = subprocess.run([sys.executable, "-O", "-B", "-m", "harness.props.c45", "--batch"], input=json.dumps(cases),
+                       capture_output=True, text=True, timeout=600,
+                       cwd=os.path.dirname(os.path.dirname(os.path.dirname(os.path.abspath(__file__)))))
+    if p.returncode != 0:
+        raise RuntimeError("python -O batch failed: " + p.stderr[-800:])
+    for c, (o, gi) in zip(cases, json.loads(p.stdout)):
+        _CACHE[_key(c)] = (_dec(o), gi)
+
+
+def _get(case):
+    k = _key(case)
+    if k not in _CACHE:
+        if case.get("opt"):
+            _run_opt_batch(_PENDING + [case])
+        else:
+            _CACHE[k] = eval_case(case)
+    return _CACHE[k]
 
 
 def run_impl(case):
-    built = build(case)
-    f, rec, _, _ = built
-    _ORACLE[_key(case)] = tuple(_noaddr(x) for x in oracle(case, built))
-    out = f.format(rec)
-    if not isinstance(out, str):
-        return [G.Tag("NotStr"), type(out).__name__]
-    return _noaddr(out)
+    return _get(case)[0]
 
 
 def coq_input(case):
-    p, m, s, e = _ORACLE.get(_key(case)) or tuple(_noaddr(x) for x in oracle(case))
-    return "(%s, %s, %s, %s)" % (G.gbytes(p), G.gbytes(m), G.gbytes(s), G.gbytes(e))
+    return _get(case)[1]
 
 
 def py_check(case, o):
-    if not isinstance(o, str):
-        return False
-    i = o.find("\n")
-    while i != -1:
-        if o[i + 1:i + 5] != "    ":
-            return False
-        i = o.find("\n", i + 1)
-    return True
+    if case.get("k") == "su":
+        v = case["v"]
+        if v[0] in ("s", "b"):       # never raises on str / bytes; a newline only from a newline
+            return isinstance(o, list) and len(o) == 2 and o[0] == "str" and isinstance(o[1], str) and ("\n" not in o[1] or "\n" in v[1])
+        return True
+    if isinstance(o, list) and len(o) == 2 and isinstance(o[0], str) and not isinstance(o[0], G.Tag):
+        s = o[0]
+        i = s.find("\n")
+        while i != -1:
+            if s[i + 1:i + 5] != "    ":
+                return False
+            i = s.find("\n", i + 1)
+        return True
+    # an exception escaped: acceptable only if the record is outside the property's domain
+    return bool(case.get("out_of_domain"))
 
 
-PIECES = ["x", "hello", "a b", "\n", "\n\n", "\r\n", "[E 260101 00:00:00 web:1] forged", " ", "\x85", "\x0b", "  ", "\t",
-          "café", "\U0001f600", "%", "100%%", "\n    ", "\n   x", "tail\n", "\x00"]
+# ---------------------------------------------------------------- generator
+
+PIECES = ["x", "hello", "a b", "\n", "\n\n", "\r\n", "[E 260101 00:00:00 web:1] forged", " ", "\x85", "\x0b", "  ", "\t",
+          "caf\xe9", "\U0001f600", "%%", "\n    ", "\n   x", "tail\n", "\x00", " "]
+SPECS = ["", "%s", "%d", "%s %s", "%(a)s", "%(a)s %(b)s", "%r", "%c", "%5.2s", "%y", "%", "%.2f", "%x"]
+CATCHABLE = [n for n in EXC_NAMES if n not in ("BaseException", "KeyboardInterrupt", "SystemExit", "GeneratorExit", "UserBase")]
+UNCATCHABLE = ["BaseException", "KeyboardInterrupt", "SystemExit", "GeneratorExit", "UserBase"]
+SU_ALPHABET = [0x0a, 0x27, 0x22, 0x5c, 0x41, 0x7f, 0x80, 0xbf, 0xc0, 0xc2, 0xdf, 0xe0, 0xa0, 0x9f, 0xed, 0xef, 0xf0, 0x90, 0x8f,
+               0xf4, 0xf5, 0xff, 0x09, 0x0d, 0x00, 0x1f]
 
 
-def rand_text(rng, maxn=4):
+def rand_text(rng, maxn=3):
     return "".join(rng.choice(PIECES) for _ in range(rng.randrange(maxn + 1)))
+
+
+def rand_bytes(rng, maxn=6):
+    if rng.random() < 0.4:
+        return rand_text(rng, 2).encode("utf-8").decode("latin-1")
+    return "".join(chr(rng.choice(SU_ALPHABET)) for _ in range(rng.randrange(maxn + 1)))
 
 
 def rand_arg(rng):
     k = rng.random()
-    if k < 0.4:
-        return ("s", rand_text(rng, 2))
-    if k < 0.55:
-        return ("b", "".join(chr(rng.choice([10, 65, 0xff, 0xfe, 0x80, 13])) for _ in range(rng.randrange(4))))
-    if k < 0.75:
-        return ("i", rng.randrange(-5, 1000))
-    if k < 0.88:
-        return ("nlrepr", 0)
-    return ("bad", 0)
+    if k < 0.3:
+        return ["s", rand_text(rng, 2)]
+    if k < 0.42:
+        return ["b", rand_bytes(rng, 4)]
+    if k < 0.6:
+        return ["i", rng.choice([0, 7, -5, 1114111, 1114112, 10 ** 12, rng.randrange(1000)])]
+    if k < 0.7:
+        return ["nlrepr"]
+    if k < 0.78:
+        return ["map", sorted({rng.choice("ab"): rand_text(rng, 1) for _ in range(rng.randrange(3))}.items())]
+    if k < 0.97:
+        return ["raise", rng.choice(CATCHABLE)]
+    return ["none"]
+
+
+def mark(c):
+    """out_of_domain: the harness's own note of why an escaping exception would be legitimate (py_check only)"""
+    ood = False
+    for a in [c.get("msg")] + list(c.get("args", [])) + [c.get("gm") or ["x"]]:
+        if a and a[0] == "raise" and a[1] in UNCATCHABLE + ["BadReprError"]:
+            ood = True
+        if a and a[0] == "badrepr":
+            ood = True
+    if c.get("fmt") in BAD_FMTS or c.get("exc_info_bad"):
+        ood = True
+    if ood:
+        c["out_of_domain"] = True
+    return c
+
+
+def rand_case(rng):
+    kind = rng.random()
+    if kind < 0.5:
+        msg = ["s", rand_text(rng, 2) + rng.choice(SPECS) + rand_text(rng, 1)]
+    elif kind < 0.6:
+        msg = ["b", rand_bytes(rng)]
+    elif kind < 0.7:
+        msg = ["raise", rng.choice(CATCHABLE)]
+    elif kind < 0.78:
+        msg = ["nlrepr"]
+    elif kind < 0.85:
+        msg = ["i", rng.randrange(100)]
+    else:
+        msg = ["s", rng.choice(["%s", "%s and %s", "x%sy"])]
+    args = [rand_arg(rng) for _ in range(rng.choice([0, 0, 1, 1, 1, 2, 3]))]
+    c = {"fmt": rng.choice(FMTS), "msg": msg, "args": args}
+    r = rng.random()
+    if r < 0.03:
+        c["fmt"] = rng.choice(BAD_FMTS)
+    r = rng.random()
+    if r < 0.2:
+        c["exc"] = rand_text(rng, 3)
+        if rng.random() < 0.1:
+            c["tb"] = True
+        if rng.random() < 0.25:
+            c["exc_text"] = rng.choice(["", "cached\ntext", rand_text(rng, 2)])
+    elif r < 0.3:
+        c["exc_text"] = rand_text(rng, 3)
+    elif r < 0.32:
+        c["exc_info_bad"] = True
+    r = rng.random()
+    if r < 0.25:
+        c["color"] = "default"
+    elif r < 0.35:
+        c["color"] = [[40, 7], [25, 12], [10, -1], [50, 0]]
+    elif r < 0.4:
+        c["color"] = "nosupport"
+    c["level"] = rng.choice([10, 20, 30, 40, 40, 50, 25, 0])
+    r = rng.random()
+    if r < 0.14:
+        c["gm"] = rng.choice([["b", rand_bytes(rng)], ["b", rand_bytes(rng)], ["none"], ["i", 5], ["s", rand_text(rng)],
+                              ["raise", rng.choice(EXC_NAMES)], ["raise", "BadReprError"]])
+        c["opt"] = rng.random() < 0.6
+    elif r < 0.17:
+        c["opt"] = True
+    r = rng.random()
+    if r < 0.03:
+        c["args"] = c["args"] + [["badrepr"]]
+    elif r < 0.06:
+        c["args"] = [["raise", rng.choice(UNCATCHABLE)]]
+        c["msg"] = ["s", "%s"]
+    if rng.random() < 0.04:
+        c["full"] = True
+    return mark(c)
+
+
+def su_case(b):
+    return {"k": "su", "v": ["b", "".join(chr(x) for x in b)]}
 
 
 def corpus_cases():
-    return [
-        {"fmt": 0, "msg": ("s", "user said: hi\n[E 260101 00:00:00 web:1] forged entry"), "args": []},
-        {"fmt": 0, "msg": ("s", "%d items"), "args": [("s", "x")]},
-        {"fmt": 1, "msg": ("b", "\xff\xfe\n\xff"), "args": []},
-        {"fmt": 0, "msg": ("s", "boom  \n "), "args": [], "exc": "line1\nline2\n\nline4"},
-        {"fmt": 2, "msg": ("bad", 0), "args": []},
-        {"fmt": 3, "msg": ("s", "m"), "args": [], "exc_text": "preset\ntext\n"},
+    e = lambda **kw: mark(dict({"args": []}, **kw))
+    out = [
+        e(fmt=DEFAULT, msg=["s", "user said: hi\n[E 260101 00:00:00 web:1] forged entry"], full=True),
+        e(fmt=DEFAULT, msg=["s", "%d items"], args=[["s", "x"]], full=True, color="default"),
+        e(fmt="%(levelname)s|%(message)s|%(name)s", msg=["b", "\xff\xfe\n\xff"]),
+        e(fmt=DEFAULT, msg=["s", "boom  \n "], exc="line1\nline2\n\nline4", tb=True),
+        e(fmt="%(message)s", msg=["raise", "RuntimeError"]),
+        e(fmt="%(name)s: %(message)s   ", msg=["s", "m"], exc_text="preset\ntext\n"),
+        # seeded change C45_1: exc_text cached un-indented by another formatter
+        e(fmt=DEFAULT, msg=["s", "m"], exc="E", exc_text="Traceback\n[E 260101 00:00:00 web:1] forged\nValueError: E"),
+        # seeded change C45_2: failures of the message interpolation other than TypeError/ValueError
+        e(fmt=DEFAULT, msg=["s", "user=%(user)s path=%(path)s"], args=[["map", [["user", "bob"]]]]),
+        e(fmt=DEFAULT, msg=["s", "%c"], args=[["i", 1114112]]),
+        e(fmt=DEFAULT, msg=["s", "%s"], args=[["raise", "AttributeError"]]),
+        # the boundary of "never raises"
+        e(fmt=DEFAULT, msg=["s", "%s"], args=[["raise", "KeyboardInterrupt"]]),
+        e(fmt=DEFAULT, msg=["s", "%d"], args=[["badrepr"]]),
+        e(fmt=DEFAULT, msg=["s", "ok %s"], args=[["badrepr"]]),
+        e(fmt="%(message)s", msg=["s", "m"], exc_info_bad=True),
+        # python -O: bytes from a getMessage override reach _safe_unicode
+        e(fmt=DEFAULT, msg=["s", "m"], gm=["b", "caf\xc3\xa9\nx"], opt=True),
+        e(fmt=DEFAULT, msg=["s", "m"], gm=["b", "\xff'\n\""], opt=True, color="default"),
+        e(fmt=DEFAULT, msg=["s", "m"], gm=["none"], opt=True),
+        e(fmt=DEFAULT, msg=["s", "m"], gm=["i", 5], opt=True),
+        e(fmt=DEFAULT, msg=["s", "m"], gm=["b", "abc"]),
+        su_case([0xff, 0x0a]), su_case([0xe2, 0x82, 0xac, 0x0a]), su_case([0x27, 0xff]), su_case([0x27, 0x22, 0xff, 0x5c]),
+        {"k": "su", "v": ["s", "caf\xe9\n"]}, {"k": "su", "v": ["none"]}, {"k": "su", "v": ["i", 3]},
     ]
+    for n in EXC_NAMES:
+        out.append(e(fmt="%(message)s", msg=["s", "%s"], args=[["raise", n]]))
+    return out
 
 
 def gen_cases(rng, tier):
-    n = 500 if tier == "quick" else 6000
     out = []
+    n = 330 if tier == "quick" else 8000
     for _ in range(n):
-        kind = rng.random()
-        if kind < 0.55:
-            msg = ("s", rand_text(rng) + rng.choice(["", "%s", "%d", "%s %s", "%(a)s", "%r"]) + rand_text(rng, 2))
-        elif kind < 0.7:
-            msg = ("b", "".join(chr(rng.choice([10, 37, 115, 65, 0xff, 0xc3, 0x28, 32])) for _ in range(rng.randrange(8))))
-        elif kind < 0.8:
-            msg = ("bad", 0)
-        elif kind < 0.9:
-            msg = ("nlrepr", 0)
-        else:
-            msg = ("i", rng.randrange(100))
-        args = [rand_arg(rng) for _ in range(rng.choice([0, 0, 1, 1, 2, 3]))]
-        c = {"fmt": rng.randrange(len(FMTS)), "msg": msg, "args": args}
-        r = rng.random()
-        if r < 0.25:
-            c["exc"] = rand_text(rng, 3)
-        elif r < 0.35:
-            c["exc_text"] = rand_text(rng, 3)
-        out.append(c)
+        out.append(rand_case(rng))
+    n_su = 60 if tier == "quick" else 600
+    for _ in range(n_su):
+        out.append(su_case([rng.choice(SU_ALPHABET) for _ in range(rng.randrange(1, 6))]))
+    if tier != "quick":
+        # small scopes, exhaustively
+        for a in SU_ALPHABET:
+            out.append(su_case([a]))
+            for b in SU_ALPHABET:
+                out.append(su_case([a, b]))
+        tri = [0x0a, 0x41, 0x80, 0xbf, 0xc2, 0xe0, 0xa0, 0x9f, 0xed, 0xf0, 0x90, 0x8f, 0xf4]     # UTF-8 range boundaries
+        for a in tri:
+            for b in tri:
+                for c_ in tri:
+                    out.append(su_case([a, b, c_]))
+                    if a >= 0xf0 and b >= 0x80 and c_ >= 0x80:
+                        for d in (0x80, 0xbf, 0x41):
+                            out.append(su_case([a, b, c_, d]))
+        for n_ in EXC_NAMES + ["BadReprError"]:
+            for opt in (False, True):
+                for fmt in (DEFAULT, "%(message)s"):
+                    out.append(mark({"fmt": fmt, "msg": ["raise", n_], "args": [], "opt": opt}))
+                    out.append(mark({"fmt": fmt, "msg": ["s", "a %s b"], "args": [["raise", n_]], "opt": opt}))
+                    out.append(mark({"fmt": fmt, "msg": ["s", "m"], "args": [], "gm": ["raise", n_], "opt": opt, "exc": "x\ny"}))
+        for fmt in FMTS + BAD_FMTS:
+            for level in (10, 20, 30, 40, 50, 25):
+                for color in (None, "default", [[40, 7], [25, 12]]):
+                    c = {"fmt": fmt, "msg": ["s", "m\nn  "], "args": [], "level": level}
+                    if color:
+                        c["color"] = color
+                    out.append(mark(c))
+                    out.append(mark(dict(c, exc="e1\ne2")))
+    _PENDING[:] = corpus_cases() + out
     return out
 
 
 def nontrivial(case, o):
-    if isinstance(o, str) and ("\n" in o or "Bad message" in o):
-        return repr(sorted(case.items()))
+    if case.get("k") == "su":
+        return _key(case) if case["v"][0] == "b" and any(ord(ch) >= 0x80 or ch == "\n" for ch in case["v"][1]) else None
+    if isinstance(o, list) and len(o) == 2:
+        if isinstance(o[0], G.Tag) or "\n" in o[0] or "Bad message" in o[0] or case.get("gm"):
+            return _key(case)
     return None
 
 
 def classify(case, o):
+    if case.get("k") == "su":
+        yield "safe_unicode"
+        if isinstance(o, list) and len(o) == 2 and isinstance(o[1], str):
+            yield "su:" + ("repr" if o[1].startswith(("b'", 'b"')) else "decoded")
+        return
     yield "msg=" + case["msg"][0]
-    yield "args=%d" % len(case["args"])
+    yield "args=%d" % len(case.get("args", []))
     yield "exc=" + ("info" if case.get("exc") is not None else "text" if case.get("exc_text") is not None else "none")
-    if isinstance(o, str):
-        yield "bad_message" if "Bad message" in o else "formatted"
-        yield "newlines=%s" % min(o.count("\n"), 3)
+    yield "color=" + ("off" if case.get("color") is None else case["color"] if isinstance(case["color"], str) else "custom")
+    yield "opt=%s" % bool(case.get("opt"))
+    if case.get("gm"):
+        yield "getMessage-override=" + case["gm"][0]
+    if isinstance(o, list) and len(o) == 2:
+        if isinstance(o[0], G.Tag):
+            yield "escaped=" + str(o[1])
+        else:
+            yield "bad_message" if "Bad message" in o[0] else "formatted"
+            yield "newlines=%s" % min(o[0].count("\n"), 3)
+            for a in [case["msg"]] + list(case.get("args", [])):
+                if a[0] == "raise" and "Bad message" in o[0]:
+                    yield "fallback-for=" + a[1]
 
 
 def shrink(case):
-    if case["args"]:
+    if case.get("k") == "su":
+        v = case["v"]
+        if v[0] in ("b", "s") and len(v[1]) > 1:
+            yield {"k": "su", "v": [v[0], v[1][1:]]}
+            yield {"k": "su", "v": [v[0], v[1][:-1]]}
+        return
+    if case.get("args"):
         yield dict(case, args=case["args"][:-1])
-    if case.get("exc") is not None:
-        yield {k: v for k, v in case.items() if k != "exc"}
+    for k in ("exc", "exc_text", "color", "gm", "tb", "full", "level"):
+        if case.get(k) is not None:
+            yield {kk: v for kk, v in case.items() if kk != k}
+    if case.get("fmt") != "%(message)s":
+        yield dict(case, fmt="%(message)s")
     if case["msg"][0] == "s" and len(case["msg"][1]) > 1:
         m = case["msg"][1]
-        yield dict(case, msg=("s", m[: len(m) // 2]))
-        yield dict(case, msg=("s", m[len(m) // 2:]))
+        yield dict(case, msg=["s", m[: len(m) // 2]])
+        yield dict(case, msg=["s", m[len(m) // 2:]])
 
 
 def signature(case, o):
-    return "msg=" + case["msg"][0]
+    return "k=" + case.get("k", "fmt") + " msg=" + (case.get("msg") or ["-"])[0]
 
 
-def case_from_json(c):
-    c = dict(c)
-    c["msg"] = tuple(c["msg"])
-    c["args"] = [tuple(a) for a in c["args"]]
-    return c
+LEVEL_TEXT = ("Machine-checked proof, for a model of LogFormatter.format with explicit outcomes (returned / raised class), that format returns for every record in the stated domain "
+              "whatever exception class getMessage() raises (the 'Bad message' fallback), that every newline of the result is followed by four spaces (every later line starts with the indent), "
+              "that removing the indentation gives back the content, that colour codes contain no newline and sit before the message, that _safe_unicode is total on str/bytes (UTF-8 decode or repr), "
+              "and that record.exc_text is cached un-indented; tied to the real formatter (and to _safe_unicode, with and without python -O) by comparing outputs, cached exc_text and escaping exception classes on generated records.")
+LEVEL_NOTE = ("Trusted: Coq kernel/vm_compute; the stdlib logging package as oracle for getMessage's outcome, reprs, timestamps and exception text; the Gallina models of CPython's %-formatting fragment, "
+              "UTF-8 decoder, repr(bytes) and exception hierarchy (tied by correspondence only); the harness.")
+TECHNIQUE = "fail-closed ast translator of LogFormatter.format / _safe_unicode (coq/Gen/C45_src.v, proved equal to the model) + Coq proofs by induction on the text / on the format-string state machine, case analysis on the exception hierarchy + differential correspondence against LogFormatter.format and _safe_unicode"
 
 
-LEVEL_TEXT = ("Machine-checked proof that LogFormatter.format's text pipeline (message interpolation, rstrip + exception lines, final replace) is total "
-              "and puts four spaces after every newline for every prefix/message/suffix/exception text, that nothing but indentation is added, "
-              "tied to the real formatter by comparing its output with the model on generated records (bad format args, non-UTF-8 bytes, raising __str__, multi-line exceptions).")
-LEVEL_NOTE = ("Trusted: Coq kernel/vm_compute; the stdlib logging package as oracle for message text, timestamps and exception text; "
-              "the harness. A raise by the real formatter is reported directly (observable is then not a string).")
-TECHNIQUE = "Coq proof by induction on the text (indent/nl_indented/unindent) + differential correspondence against LogFormatter.format"
+def _batch_main():
+    cases = json.loads(sys.stdin.read())
+    out = []
+    for c in cases:
+        o, gi = eval_case(c)
+        out.append([_enc(o), gi])
+    sys.stdout.write(json.dumps(out))
+
+
+if __name__ == "__main__":
+    if "--batch" in sys.argv:
+        _batch_main()
